@@ -125,6 +125,7 @@ func checkC05(ctx *Ctx, r *Report) {
 	c05FifthRound(ctx, r)
 	c05SixthRound(ctx, r)
 	c05SeventhRound(ctx, r)
+	c05RemovedNamesComparedWithPackage(ctx, r)
 	c18HintedBranchesVisited(ctx, r)
 	c18SpreadFieldsCopied(ctx, r) // types shared by duplicates are renamed once through each: PA -> PPA, a dangling reference
 	c07ObjectSetsKeyedByIdentity(ctx, r)
@@ -2878,4 +2879,59 @@ func c05SeventhRound(ctx *Ctx, r *Report) {
 	}
 	r.Count("hunted clauses of the reference rules (7th round)", n)
 	r.Floor("hunted clauses of the reference rules (7th round)", 3)
+}
+
+// c05RemovedNamesComparedWithPackage: RemoveIntersections records what it removes from the schema it is processing by
+// bare name. A handler that looks the name of a *referred* object up in these tables (`…ReferredType` as key of
+// objectsToRemove / arraysToFix, or as argument of replacementOf) has to compare the package of the reference with the
+// package of the schema first: `x: lib.#Foo` is not concerned by main replacing its own Foo.
+func c05RemovedNamesComparedWithPackage(ctx *Ctx, r *Report) {
+	fn := ctx.LookupMethod("internal/ast/compiler", "RemoveIntersections", "Process")
+	if fn == nil {
+		r.Undecided("anchor lost: compiler.RemoveIntersections.Process")
+		return
+	}
+	named := namedOf(fn.Type().(*types.Signature).Recv().Type())
+	n := 0
+	for _, fd := range methodsOf(ctx, named) {
+		if fd.Body == nil {
+			continue
+		}
+		var lookups []ast.Node
+		ast.Inspect(fd.Body, func(m ast.Node) bool {
+			var key ast.Expr
+			switch x := m.(type) {
+			case *ast.IndexExpr:
+				if strings.HasSuffix(exprString(x.X), "objectsToRemove") || strings.HasSuffix(exprString(x.X), "arraysToFix") {
+					key = x.Index
+				}
+			case *ast.CallExpr:
+				if strings.HasSuffix(exprString(x.Fun), ".replacementOf") && len(x.Args) == 1 {
+					key = x.Args[0]
+				}
+			}
+			if key != nil && strings.HasSuffix(exprString(key), "ReferredType") {
+				lookups = append(lookups, m)
+			}
+			return true
+		})
+		if len(lookups) == 0 {
+			continue
+		}
+		compares := false
+		ast.Inspect(fd.Body, func(m ast.Node) bool {
+			if be, ok := m.(*ast.BinaryExpr); ok && (be.Op == token.EQL || be.Op == token.NEQ) {
+				l, rr := exprString(be.X), exprString(be.Y)
+				if (strings.HasSuffix(l, "ReferredPkg") && strings.HasSuffix(rr, ".Package")) || (strings.HasSuffix(rr, "ReferredPkg") && strings.HasSuffix(l, ".Package")) {
+					compares = true
+				}
+			}
+			return true
+		})
+		n++
+		r.Check(compares, "traverse/removed-names-compared-with-package", "compiler.RemoveIntersections."+fd.Name.Name+" looks a referred object up among what the schema removes", lookups[0].Pos(), "the package of the reference is compared with the schema's first",
+			"RemoveIntersections."+fd.Name.Name+" looks the bare name of a referred object up in the tables of what the schema being processed removes, whatever the package of the reference: with lib {#Foo: {a: string}} and main {Foo: {b: int64}; Bar: Foo; Root: {x: lib.#Foo}}, the Java chain retargets main.Root.x to main.Bar")
+	}
+	r.Count("handlers of RemoveIntersections looking referred names up", n)
+	r.Floor("handlers of RemoveIntersections looking referred names up", 3)
 }
